@@ -227,6 +227,14 @@ func parseDur(s string) time.Duration {
 
 func runBrokerPairs(r *h.Run, c h.Conf, kind string) {
 	w := r.W
+	if c.Proto == "netrpc" && r.Spec.P("fixed", "") != "1" {
+		// Plugin.Server() may take a while, and may fail, per plugin name
+		c.Sh = plugins.NewShared("v1/netrpc")
+		c.Sh.SlowServer = map[string]time.Duration{}
+		for _, n := range []string{"cmd1", "cmd2", "cmd3", "fail1", "fail2"} {
+			c.Sh.SlowServer[n] = time.Duration(w.Range("dispense/slow/"+n, 4)) * 400 * time.Millisecond
+		}
+	}
 	s := open(r, c)
 	if s == nil {
 		return
@@ -269,6 +277,9 @@ func runBrokerPairs(r *h.Run, c h.Conf, kind string) {
 	nd := 0
 	if r.Spec.P("fixed", "") != "1" {
 		nd = w.Range("dispense/n", 4)
+		if c.Proto == "netrpc" {
+			nd = w.Range("dispense/n", 7)
+		}
 	}
 	type disp struct {
 		tag string
@@ -285,7 +296,15 @@ func runBrokerPairs(r *h.Run, c h.Conf, kind string) {
 			time.Sleep(off)
 			name := h.PluginName
 			if c.Proto == "netrpc" {
-				name = fmt.Sprintf("cmd%d", 1+i%3)
+				name = []string{"cmd1", "fail1", "cmd2", "cmd3", "fail2", "cmd1", "cmd2"}[i%7]
+			}
+			if strings.HasPrefix(name, "fail") {
+				o := r.DoNoHang(fmt.Sprintf("Dispense[%d]", i), 60*time.Second, kind, func() (any, error) { return s.cp.Dispense(name) })
+				if o.Err == nil && !o.Hung {
+					r.Violate("setup", "failing dispense succeeded", name)
+				}
+				dres[i].tag = fmt.Sprintf("failed-%d", i)
+				return
 			}
 			o := r.DoNoHang(fmt.Sprintf("Dispense[%d]", i), 60*time.Second, kind, func() (any, error) {
 				raw, err := s.cp.Dispense(name)
